@@ -601,6 +601,19 @@ def purity(ctx, chk, only=None, strict=None):
             finds += mutation_findings(o, strict, ctx.db)
             finds += tolerance_findings(o)
             rng += [e for e in o.events if e["kind"] == "rng"]
+        # one array reachable through two live local names, one of them updated in place (invisible to the value-numbered terms)
+        try:
+            fi_ = ctx.db.function(q)
+        except Exception:  # noqa: BLE001
+            fi_ = None
+        if fi_ is not None:
+            from ..alias import shared_buffer_findings
+            helpers = dict((nm_, f_.node) for nm_, f_ in (fi_.cls.methods.items() if fi_.cls is not None else ()))
+            helpers.update((nm_, f_.node) for nm_, f_ in fi_.module.functions.items())
+            for line_, text_ in shared_buffer_findings(fi_.node, helpers):
+                class _N:  # noqa: N801
+                    lineno = line_
+                finds.append(("shared-buffer", text_, {"node": _N}))
         seen = set()
         for kind, msg, e in finds:
             k = (kind, msg)
